@@ -182,7 +182,19 @@ NEEDS.update({
  "o16": "input: a rule with a present but empty from/to list (Go-built object)",
  "o20": "input: a range ending exactly at 255.255.255.255 (Contains wraps)",
 })
-OTHER = {'n03': ['C04'], 'n01': ['C04'], 'n08': ['C06'], 'm06': ['C09'], 'm02': ['C03'], 'l17': ['C14'], 'l08': ['C09'], 'l10': ['C04'], 'l01': ['C04'], 'k20': ['C09'], 'k02': ['C07'], 'k05': ['C09'], 'j08': ['C05'], 'j01': ['C04'], 'b02': ['C03', 'C05'], 'a04': ['C10'], 'd02': ['C06'], 'd09': ['C05', 'C06'], 'e06': ['C08', 'C05'], 'e01': ['C09', 'C05'], 'e10': ['C04'], 'e04': ['C01'], 'f13': ['C12'], 'd01': ['C04'], 'i02': ['C05'], 'i06': ['C09', 'C05'], 'i04': ['C01'], 'g02b': ['C06'], 'g10': ['C04'], 'g19': ['C06'], 'f16a': ['C15'], 'f15b': ['C16']}
+NEEDS.update({
+ "p01": "interleaving: unbind of a late event looks at the key before taking the pod lock (same edit as j04)",
+ "p03": "state: a pod that FINISHED (Succeeded/Failed, object stays) whose IP records its uid, the finish event lost or its unbind given up; resync or API release",
+ "p04": "interleaving: release API decides 'no such pod' before taking the pod lock (same edit as n01)",
+ "p07": "interleaving + lag: resync (or an API release) between the filter and the bind of a sized-pool pod while the pod cache lacks the pod (same edit as o02)",
+ "p08": "input: a requested range list with several entries whose first entry is a single address that the pod does not get",
+ "p09": "input + event path: an administrator reservation with a pod-shaped key and policy never arriving by watch event (policy lost), then resync",
+ "p10": "interleaving: release API (locking the wrong pod key) overlapping the Bind of the same pod, provider configured (same edit as j01)",
+ "p17": "state: only the port file of a dead container is left (or the callback failed in the earlier passes): the file is removed before the callback reads it",
+ "p18": "input: a policy whose rule has only ipBlock peers, then a pod event for a pod of the policy's namespace",
+ "p19": "interleaving: the list API walks the labels of a listed reserved entry while the reservation is withdrawn (labels map mutated in place)",
+})
+OTHER = {'p07': ['C02'], 'p01': ['C04'], 'n03': ['C04'], 'n01': ['C04'], 'n08': ['C06'], 'm06': ['C09'], 'm02': ['C03'], 'l17': ['C14'], 'l08': ['C09'], 'l10': ['C04'], 'l01': ['C04'], 'k20': ['C09'], 'k02': ['C07'], 'k05': ['C09'], 'j08': ['C05'], 'j01': ['C04'], 'b02': ['C03', 'C05'], 'a04': ['C10'], 'd02': ['C06'], 'd09': ['C05', 'C06'], 'e06': ['C08', 'C05'], 'e01': ['C09', 'C05'], 'e10': ['C04'], 'e04': ['C01'], 'f13': ['C12'], 'd01': ['C04'], 'i02': ['C05'], 'i06': ['C09', 'C05'], 'i04': ['C01'], 'g02b': ['C06'], 'g10': ['C04'], 'g19': ['C06'], 'f16a': ['C15'], 'f15b': ['C16']}
 only = sys.argv[1:]
 for sid, (prop, pkg) in SEEDS.items():
     if only and sid not in only: continue
